@@ -109,7 +109,14 @@ func oracleOne(c Case) error {
 			return nil
 		}
 		want, ok := decide(c.Key, c.Data)
-		m, err := messages.DeserializeEncrypted(append([]byte{}, c.Data...), append([]byte{}, c.Key...))
+		in := append(make([]byte, 0, len(c.Data)+16), c.Data...)
+		m, err := messages.DeserializeEncrypted(in, append([]byte{}, c.Key...))
+		// the caller's receive buffer: handed over a second time it gets the same verdict, and afterwards it is used for
+		// the next packet
+		if m2, err2 := messages.DeserializeEncrypted(in, append([]byte{}, c.Key...)); (err == nil) != (err2 == nil) || (err == nil && !bytes.Equal(m.Msg, m2.Msg)) {
+			return fmt.Errorf("[%s] the same buffer handed to DeserializeEncrypted twice: first %v, then %v", c.Fault, err, err2)
+		}
+		hx.Scribble(in)
 		if !ok {
 			if err == nil {
 				return fmt.Errorf("[%s] packet that fails the acceptance conditions yielded a message (msg_id=%d seq_no=%d body[%d])", c.Fault, m.MsgID, m.SeqNo, len(m.Msg))
